@@ -213,6 +213,10 @@ func (vc *VC) assignEntryClasses(a string, c *Contract, ms *modSet) {
 	switch {
 	case a == "all":
 		ms.all = true
+	case a == "fresh":
+		// writes only memory the callee allocates itself: the byte heap changes, but not inside
+		// any object the caller knows (stated as a frame fact at the call site)
+		ms.keys["M"] = true
 	case a == "M" || strings.HasPrefix(a, "M["):
 		ms.keys["M"] = true
 	case strings.HasPrefix(a, "class "):
